@@ -1,5 +1,5 @@
 /*@harness
-{"tier":"quick","mode":"bounded(2 heart-beat objects (a third object may be enabled during the round), one round (tick), up to 1 set_heart_beat operation on arbitrary objects inside every heart_beat call)","tus":["src/backend.c"],"include_tu":true,"dfcc":false,
+{"tier":"thorough","mode":"bounded(2 heart-beat objects (a third object may be enabled during the round), one round (tick), up to 1 set_heart_beat operation on arbitrary objects inside every heart_beat call)","tus":["src/backend.c"],"include_tu":true,"dfcc":false,
  "functions":["call_heart_beat","set_heart_beat"],
  "stub_out":["look_for_objects_to_swap"],
  "flags":["--bounds-check","--pointer-check"],"unwind":9,"timeout":900,
